@@ -31,14 +31,14 @@ FILE_CHECKS = {
     "ribs/archives/_cvt_archive.py": ["C03", "C07", "C11", "C09"],
     "ribs/archives/_sliding_boundaries_archive.py": ["C15", "C07", "C11"],
     "ribs/archives/_proximity_archive.py": ["C14", "C07", "C11"],
-    "ribs/_utils.py": ["C11", "C01", "C13", "C04", "C19"],
+    "ribs/_utils.py": ["C11", "C01", "C13", "C04", "C19", "C14", "C02"],
     "ribs/schedulers/_scheduler.py": ["C04", "C12"],
     "ribs/schedulers/_bandit_scheduler.py": ["C16", "C04"],
     "ribs/emitters/rankers.py": ["C17"],
     "ribs/emitters/_evolution_strategy_emitter.py": ["C10", "C08"],
     "ribs/emitters/_gradient_arborescence_emitter.py": ["C10", "C19"],
-    "ribs/emitters/_gradient_operator_emitter.py": ["C19", "C08"],
-    "ribs/emitters/_gaussian_emitter.py": ["C08"],
+    "ribs/emitters/_gradient_operator_emitter.py": ["C19", "C08", "C12", "C09"],
+    "ribs/emitters/_gaussian_emitter.py": ["C08", "C12"],
     "ribs/emitters/_iso_line_emitter.py": ["C08", "C09"],
     "ribs/emitters/opt/_cma_es.py": ["C18"],
     "ribs/emitters/opt/_sep_cma_es.py": ["C18"],
@@ -46,7 +46,7 @@ FILE_CHECKS = {
     "ribs/emitters/opt/_openai_es.py": ["C18"],
     "ribs/emitters/opt/_adam_opt.py": ["C18", "C19"],
     "ribs/emitters/opt/_gradient_ascent_opt.py": ["C19", "C18"],
-    "ribs/emitters/opt/_pycma_es.py": ["C18", "C08"],
+    "ribs/emitters/opt/_pycma_es.py": ["C18", "C08", "C09"],
     "ribs/emitters/_emitter_base.py": ["C08"],
     "ribs/emitters/_genetic_algorithm_emitter.py": ["C08", "C09"],
     "ribs/emitters/operators/_gaussian.py": ["C08"],
